@@ -4,6 +4,25 @@ VARIABLES l, sync
 Names == <<<<99, 109, 100>>, <<97>>, <<97, 98>>, <<104, 101, 108, 112>>>>     \* "cmd" "a" "ab" "help"
 Fill(n) == [i \in 1..n |-> 165]
 ToSet(s) == {s[i] : i \in 1..Len(s)}
+\* ----- help texts: per command its name, " - " and the help string if there is one, CR LF ------------------------------
+\* the command tables of the driver: <<name, help>> (help <<>> = none)
+S(str) == str
+Tab1 == << <<Names[1], <<99>>>>, <<Names[2], <<>>>> >>                                                     \* cmd "c", a
+Tab2 == << <<Names[3], <<>>>>, <<Names[1], <<99, 50>>>>, <<Names[4], <<104>>>>, <<Names[3], <<>>>> >>      \* ab, cmd "c2", help "h", ab
+TabAll == << <<Names[1], <<99>>>>, <<Names[2], <<>>>>, <<Names[3], <<>>>>, <<Names[4], <<104>>>> >>
+RECURSIVE HelpText(_, _)
+HelpText(tab, i) == IF i > Len(tab) THEN <<>>
+                    ELSE tab[i][1] \o (IF tab[i][2] # <<>> THEN <<32, 45, 32>> \o tab[i][2] ELSE <<>>) \o <<13, 10>> \o HelpText(tab, i + 1)
+TabOf(n) == IF n = 1 THEN Tab1 ELSE IF n = 2 THEN Tab2 ELSE TabAll
+\* the buffer forms: the text is cut to what fits, terminated, the count returned is its length; a buffer with room for everything
+\* (one spare byte per table for the nested terminators of the tables form) holds the whole text
+HelpBufErrs(ev, full, spare) ==
+   LET body == SubSeq(ev.win, 9, 8 + ev.amax) IN
+   (IF SubSeq(ev.win, 1, 8) # Fill(8) \/ SubSeq(ev.win, 9 + ev.amax, 16 + ev.amax) # Fill(8) THEN {"guard"} ELSE {})
+   \cup (IF ev.ret < 0 \/ ev.ret > ev.amax - 1 THEN {"ret"}
+         ELSE (IF body[ev.ret + 1] # 0 THEN {"terminator"} ELSE {})
+              \cup (IF SubSeq(body, 1, ev.ret) # SubSeq(full, 1, IF ev.ret < Len(full) THEN ev.ret ELSE Len(full)) THEN {"text"} ELSE {})
+              \cup (IF ev.amax >= Len(full) + 1 + spare /\ ev.ret # Len(full) THEN {"truncated_although_it_fits"} ELSE {}))
 Exp(ev) ==
    LET s == ev.s a == ev.a b == ev.b n == ev.n IN
    CASE ev.fn = "split_char" -> [toks |-> Split(s, {a[1]})]
@@ -32,6 +51,8 @@ Exp(ev) ==
      \* dispatched, in order - the dispatcher keeps no state of its own and disturbs none of its caller's
      [] ev.fn \in {"mshell_script", "mshell_tables_script", "rshell_script", "rshell_tables_script"} ->
             LET ls == Split(s, {10}) IN [lines |-> ls, names |-> [k \in 1..Len(ls) |-> Dispatch(ls[k], Names, 10).name]]
+     [] ev.fn = "mshell_help" -> [out |-> HelpText(TabOf(n), 1)]
+     [] ev.fn = "mshell_tables_help" -> [out |-> HelpText(Tab1, 1) \o HelpText(Tab2, 1)]
      [] ev.fn = "path_next" -> LET r == PathNext(s) IN [off |-> r.off, len |-> r.len]
      [] ev.fn = "path_iterate" -> [off |-> PathIterate(s)]
      [] ev.fn = "compare_node" -> [ret |-> CompareNode(s, a)]
@@ -42,6 +63,10 @@ TNext ==
    /\ LET ev == TraceLog[l] IN
       IF ev.e = "Reset" THEN TRUE
       ELSE IF ev.e = "Fault" THEN Flag(l, <<"fault">>, [kind |-> ev.kind, where |-> ev.where])
+      ELSE IF ev.fn \in {"rshell_help", "rshell_tables_help"} THEN
+           LET full == IF ev.fn = "rshell_help" THEN HelpText(TabOf(ev.n), 1) ELSE HelpText(Tab1, 1) \o HelpText(Tab2, 1)
+               errs == HelpBufErrs(ev, full, IF ev.fn = "rshell_help" THEN 0 ELSE 2)
+           IN IF errs # {} THEN Flag(l, SetToSeq(errs), [text |-> full]) ELSE TRUE
       ELSE LET exp == Exp(ev) mm == Mismatch(ev, exp) IN IF mm # {} THEN Flag(l, SetToSeq(mm), exp) ELSE TRUE
 TSpec == TInit /\ [][TNext]_<<l, sync>>
 Accepted == WriteVerdict
